@@ -14,6 +14,8 @@ import (
 	"strings"
 	"syscall"
 	"time"
+	"unicode/utf16"
+	"unicode/utf8"
 
 	"github.com/Vedant9500/WTF/internal/database"
 	apperrors "github.com/Vedant9500/WTF/internal/errors"
@@ -57,6 +59,8 @@ func textsOf(class string) (cmd, desc string, kws []string) {
 		return "!!! ??? --- ...", "*** ((( ))) ###", []string{"---", "!!!"}
 	case "emptyfields":
 		return "", "", nil
+	case "blankfields": // a command line of white space only, found through its description and keywords
+		return " \t\u00a0", "Compress a directory; list files (the command itself is blank)", []string{"compress", "list", " "}
 	case "unicode":
 		return "日本語 Ünï cödé 🚀 tool", "Σίσυφος ßtraße ﬁle İstanbul", []string{"キーワード", "ключ"}
 	case "badutf8":
@@ -80,7 +84,11 @@ func makeFile(dir, shape, text string) string {
 		for _, x := range kws {
 			k = append(k, yamlQuote(x))
 		}
-		return fmt.Sprintf("- command: %s\n  description: %s\n  keywords: [%s]\n  platform: [linux]\n  pipeline: %v\n", yamlQuote(fmt.Sprintf("%s %d", cmd, i)), yamlQuote(desc), strings.Join(k, ", "), i%2 == 0)
+		cmdi := fmt.Sprintf("%s %d", cmd, i)
+		if text == "blankfields" {
+			cmdi = cmd
+		}
+		return fmt.Sprintf("- command: %s\n  description: %s\n  keywords: [%s]\n  platform: [linux]\n  pipeline: %v\n", yamlQuote(cmdi), yamlQuote(desc), strings.Join(k, ", "), i%2 == 0)
 	}
 	var content string
 	switch shape {
@@ -123,6 +131,21 @@ func makeFile(dir, shape, text string) string {
 	case "damaged":
 		v := entry(1) + entry(2)
 		content = v[:len(v)/2] + "\n  - : : [unclosed {\n\t\tkey: 'x\n" + v[len(v)/2:]
+	case "utf16le", "utf16be": // a well-formed list saved as UTF-16 with a byte-order mark (what Windows tools write)
+		src := entry(1) + entry(2) + entry(3)
+		if !utf8.ValidString(src) {
+			src = "- command: \"tar -czf x.tgz dir\"\n  description: \"Compress a directory; list files\"\n  keywords: [compress, list]\n"
+		}
+		u := utf16.Encode([]rune("\ufeff" + src))
+		b := make([]byte, 0, 2*len(u))
+		for _, x := range u {
+			if shape == "utf16le" {
+				b = append(b, byte(x), byte(x>>8))
+			} else {
+				b = append(b, byte(x>>8), byte(x))
+			}
+		}
+		content = string(b)
 	case "binary":
 		content = string([]byte{0x00, 0x01, 0x02, 0xff, 0xfe, 0x7f, 0x1b, 0x5b, 0x00, 0x89, 0x50, 0x4e, 0x47, 0x0d, 0x0a, 0x1a, 0x0a})
 	}
